@@ -553,6 +553,39 @@ func SpecPred(p *core.Prog, r *core.Report) {
 		{"(*SpecValidator).validateDuplicatePropertyNames", "circularAncestryDefinitionMsg", []string{`validateCircularAncestry.* > 0$`}, nil, "circular allOf ancestry"},
 	}
 	n := checkPredClauses(p, r, rule, clauses)
+	// every one of these rules is an error rule: its message enters a result through AddErrors (as a warning it
+	// leaves the document valid)
+	nCat := 0
+	for _, cl := range clauses {
+		for _, f := range p.Funcs {
+			if !p.InSubject(f) {
+				continue
+			}
+			core.EachInstr(f, func(i ssa.Instruction) {
+				c, ok := i.(*ssa.Call)
+				if !ok {
+					return
+				}
+				g := core.StaticCallee(c)
+				if g == nil || g.Name() != cl.msg || !p.InSubject(g) {
+					return
+				}
+				nCat++
+				sink := messageSink(c, 0)
+				key := core.FuncName(f) + ":" + cl.msg + ":as-error"
+				switch sink {
+				case "AddErrors":
+					r.OK(rule, key, p.Pos(c.Pos()), "reported as an error")
+				case "":
+					r.OK(rule, key, p.Pos(c.Pos()), "handed on (returned or stored): not added to a result here")
+				default:
+					r.Bad(rule, key, p.Pos(c.Pos()), cl.explain+": the message of this rule is added with "+sink+" instead of AddErrors — a document that breaks the rule stays valid")
+				}
+			})
+		}
+	}
+	r.Count("spec_message_categories", nCat)
+	r.Floor("spec_message_categories", 15)
 	r.Count("spec_predicate_sites", n)
 	r.Floor("spec_predicate_sites", 18)
 	// arrays declare items at every depth: the schema walk of the rule descends into the items schema by calling
@@ -641,4 +674,41 @@ func KeywordPred(p *core.Prog, r *core.Report) {
 	n := checkPredClauses(p, r, rule, clauses)
 	r.Count("keyword_predicate_sites", n)
 	r.Floor("keyword_predicate_sites", 11)
+}
+
+// messageSink: the method of Result that a freshly built message is handed to (through the slice of a variadic
+// call and interface conversions); "" when it goes elsewhere.
+func messageSink(v ssa.Value, d int) string {
+	if d > 6 {
+		return ""
+	}
+	for _, ref := range core.Refs(v) {
+		switch u := ref.(type) {
+		case *ssa.MakeInterface:
+			if s := messageSink(u, d+1); s != "" {
+				return s
+			}
+		case *ssa.ChangeInterface:
+			if s := messageSink(u, d+1); s != "" {
+				return s
+			}
+		case *ssa.Store:
+			if ia, ok := u.Addr.(*ssa.IndexAddr); ok && u.Val == v {
+				if s := messageSink(ia.X, d+1); s != "" {
+					return s
+				}
+			}
+		case *ssa.Slice:
+			if s := messageSink(u, d+1); s != "" {
+				return s
+			}
+		case *ssa.Call:
+			if g := core.StaticCallee(u); g != nil && g.Signature.Recv() != nil {
+				if n := core.NamedOf(g.Signature.Recv().Type()); n != nil && n.Obj().Name() == "Result" {
+					return g.Name()
+				}
+			}
+		}
+	}
+	return ""
 }
